@@ -1,6 +1,6 @@
 """Deterministic scheduler for `ffcx.codegeneration.jit` (properties C14 / C15).
 
-K real `jit.compile_forms` calls run as threads of this process on one cache directory.  Every
+K real `jit.compile_forms` (or `jit.compile_expressions`: `api="expressions"`) calls run as threads of this process on one cache directory.  Every
 operation at which jit.py touches the cache directory or the process-global state is wrapped so
 that the calling thread blocks until the scheduler grants it ("gate").  Exactly one thread runs at
 any time, so a schedule `[(pid, choice), ...]` determines the execution completely.  The gates are
@@ -14,11 +14,14 @@ the steps of the Lean model `FfcxModel/Jit/Cache.lean` (same op / result names):
     swap     jit.root_logger.handlers = [capture]   (first assignment; redirect_stdout enters silently)
     src obj link1 link2    the four phases of `cffi.FFI.compile` ok | raise
     unredir  redirect_stdout.__exit__ on the normal path
-    mark     jit.open(<module>.c.cached, "x")              ok | exists
+    markcreate  jit.open(<module>.c.cached, "x")           ok | exists | raise
+    markwrite   fd.write(s) and fd.close() of the file object returned by that open    ok | raise
     restore  jit.root_logger.handlers = old_handlers (second assignment)
     release  jit.os.replace(.c -> .c.failed)               ok | enoent
 
-choice: "none" | "fail" (the gated op raises, meaningful for gen/src/obj/link1/link2) | "kill" (the
+choice: "none" | "fail" (the gated op raises, meaningful for gen/src/obj/link1/link2/markcreate/
+markwrite; at markwrite either `fd.write` raises before anything is written or - with
+`Patches.markwrite_fail_at = "close"` - the write goes through and `fd.close` raises) | "kill" (the
 thread is abandoned at its gate: it never runs again, files stay as they are) | "again" (a thread
 whose request has returned or raised issues a new `compile_forms` call — the same "process" asks
 again; for a request in progress it is an ordinary step).
@@ -57,8 +60,9 @@ import ffcx
 import ffcx.codegeneration.jit as jit
 import ffcx.compiler
 
-BUILDER_OPS = ["lock", "gen", "swap", "src", "obj", "link1", "link2", "unredir", "mark", "restore", "find", "load"]
-FAILABLE = {"gen", "src", "obj", "link1", "link2"}
+BUILDER_OPS = ["lock", "gen", "swap", "src", "obj", "link1", "link2", "unredir", "markcreate", "markwrite", "restore",
+               "find", "load"]
+FAILABLE = {"gen", "src", "obj", "link1", "link2", "markcreate", "markwrite"}
 COMPILE_OPS = {"src", "obj", "link1", "link2"}
 STEP_TIMEOUT_S = 120.0
 
@@ -75,8 +79,21 @@ class InjectedCompileError(cffi.VerificationError):
     pass
 
 
+class InjectedMarkerOpenError(OSError):
+    """open(ready_name, "x") fails for a reason other than EEXIST (nothing is created)."""
+
+
+class InjectedMarkerWriteError(OSError):
+    """fd.write(s) / fd.close() on the freshly created ready marker fails (ENOSPC, EIO, ...)."""
+
+
 class SchedulerError(RuntimeError):
     """Infrastructure failure of the scheduler itself (never a property violation)."""
+
+
+class CannotGate(SchedulerError):
+    """jit.py no longer has the module globals the gates are installed into: the tie between the
+    model and the code is broken (reported as a broken correspondence, there is no failing input)."""
 
 
 # --------------------------------------------------------------------------- the form under test
@@ -124,13 +141,53 @@ def kernel_ok(form_obj, mod):
     return ok, A.tolist()
 
 
-class Reference:
-    """One real, unpatched build of the form: the files every gated compile replays."""
+def tiny_expression():
+    """A P1 coefficient on an interval evaluated at the reference points 1/4 and 3/4."""
+    import basix.ufl
+    import ufl
 
-    def __init__(self, root: Path, form_factory=tiny_form, options=None):
+    e = basix.ufl.element("Lagrange", "interval", 1)
+    dom = ufl.Mesh(basix.ufl.element("Lagrange", "interval", 1, shape=(1,)))
+    V = ufl.FunctionSpace(dom, e)
+    u = ufl.Coefficient(V)
+    return (u, np.array([[0.25], [0.75]]))
+
+
+def expression_ok(expr_obj, mod):
+    """Call a compiled `tiny_expression` with dofs (1, 3): values 1.5 and 2.5."""
+    try:
+        ffi = mod.ffi
+        A = np.zeros(2)
+        x = np.array([0.0, 0, 0, 2.0, 0, 0])
+        w = np.array([1.0, 3.0])
+        c = np.zeros(1)
+        expr_obj.tabulate_tensor_float64(
+            ffi.cast("double*", A.ctypes.data), ffi.cast("double*", w.ctypes.data),
+            ffi.cast("double*", c.ctypes.data), ffi.cast("double*", x.ctypes.data),
+            ffi.NULL, ffi.NULL, ffi.NULL,
+        )
+    except Exception as e:  # noqa: BLE001
+        return False, repr(e)
+    return bool(np.allclose(A, [1.5, 2.5], rtol=1e-13, atol=1e-15)), A.tolist()
+
+
+API = {
+    # api -> (name of the jit.py entry point, factory of its first argument's element, result check)
+    "forms": ("compile_forms", tiny_form, kernel_ok),
+    "expressions": ("compile_expressions", tiny_expression, expression_ok),
+}
+
+
+class Reference:
+    """One real, unpatched build of the form (or expression): the files every gated compile replays."""
+
+    def __init__(self, root: Path, form_factory=None, options=None, api="forms"):
+        self.api = api
+        self.entry, default_factory, self.check = API[api]
+        form_factory = form_factory or default_factory
         self.form_factory = form_factory
         self.options = dict(options or {})
-        self.dir = Path(root) / "reference"
+        self.dir = Path(root) / ("reference" if api == "forms" else "reference_" + api)
         self.dir.mkdir(parents=True, exist_ok=True)
         stages = []
         # observe the real cffi pipeline: source first, then object and shared object
@@ -155,7 +212,7 @@ class Reference:
         t0 = _time.time()
         rc.make_c_source, rc.ffiplatform.compile = make, comp
         try:
-            (f,), mod, (decl, impl) = jit.compile_forms([form_factory()], options=self.options, cache_dir=self.dir)
+            (f,), mod, (decl, impl) = getattr(jit, self.entry)([form_factory()], options=self.options, cache_dir=self.dir)
         finally:
             rc.make_c_source, rc.ffiplatform.compile = real_make, real_compile
         self.build_s = _time.time() - t0
@@ -176,7 +233,7 @@ class Reference:
         self.c_bytes = (self.dir / self.c_name).read_bytes()
         self.o_bytes = (self.dir / self.o_name).read_bytes() if (self.dir / self.o_name).exists() else b""
         self.so_bytes = (self.dir / self.so_name).read_bytes()
-        self.kernel_ok = kernel_ok(f, mod)
+        self.kernel_ok = self.check(f, mod)
         self.mod = mod
 
     def _kind(self, n):
@@ -238,6 +295,10 @@ class _Proc:
         self.compiles = 0
         self.again = False  # the scheduler asked for a further request
         self.history = []  # outcomes of earlier requests of this "process"
+        self.tok = 0  # link generation of the `.so` this request imported last
+        self.loaded_from = []  # (file name, link generation) of every import
+        self.fs_at_finish = None  # abstract directory contents at the moment the request returned/raised
+        self.fs_history = []  # the same for the earlier requests of this "process"
 
 
 class Scenario:
@@ -259,6 +320,7 @@ class Scenario:
         self.orig_handlers = list(logging.getLogger().handlers)
         self.orig_stdout = sys.stdout
         self.counters = {"lock_ok": 0, "release_ok": 0, "compile": 0}
+        self.so_gen = 0  # how often the (replayed) linker has re-created the `.so`
         self.started = False
 
     # -- worker side ------------------------------------------------------------------------
@@ -269,7 +331,7 @@ class Scenario:
         self.by_thread[threading.get_ident()] = st
         while True:
             try:
-                objs, mod, code = jit.compile_forms(
+                objs, mod, code = getattr(jit, self.ref.entry)(
                     [self.ref.form_factory()], options=dict(self.ref.options), cache_dir=self.cache_dir,
                     timeout=self.timeout, **self.extra_kwargs,
                 )
@@ -278,6 +340,12 @@ class Scenario:
                 st.outcome = ("dead",)
             except BaseException as e:  # noqa: BLE001
                 st.outcome = ("raised", e)
+            if st.outcome[0] != "dead":
+                # exactly one thread runs at any time: this is the directory as the request leaves it
+                try:
+                    st.fs_at_finish = self.ref.abstract_fs(self.cache_dir)
+                except Exception as e:  # noqa: BLE001
+                    st.fs_at_finish = ({"error": repr(e)}, [])
             with self.cv:
                 st.finished = True
                 st.at_gate = False
@@ -289,13 +357,16 @@ class Scenario:
                     return
                 st.again = False
                 st.history.append(st.outcome)
+                st.fs_history.append(st.fs_at_finish)
+                st.fs_at_finish = None
                 st.outcome = None
                 st.finished = False
                 st.polls = st.sleeps = st.handler_sets = st.compiles = 0
                 st.loaded = []
 
-    def gate(self, op, action, classify):
-        """Block until granted, then perform `action` (or the injected fault)."""
+    def gate(self, op, action, classify, on_fail=None):
+        """Block until granted, then perform `action` (or the injected fault; `on_fail`, if given,
+        replaces the default "raise before doing anything")."""
         st = self.me()
         with self.cv:
             if st.abort:
@@ -313,8 +384,14 @@ class Scenario:
             st.pending = None
         if choice == "fail" and op in FAILABLE:
             self._last = (st.pid, op, "raise")
+            if on_fail is not None:
+                return on_fail()
             if op == "gen":
                 raise InjectedCodegenError("injected code generation failure")
+            if op == "markcreate":
+                raise InjectedMarkerOpenError(13, "injected failure of open(ready_name, 'x')")
+            if op == "markwrite":
+                raise InjectedMarkerWriteError(28, "injected failure of fd.write on the ready marker")
             raise InjectedCompileError(f"injected C compiler failure at {op}")
         try:
             v = action()
@@ -424,7 +501,7 @@ class Scenario:
             return ("running", None, st.pending, st.polls)
         o = st.outcome
         if o[0] == "done":
-            return ("done", (o[1], st.loaded[-1] if st.loaded else None), "none", st.polls)
+            return ("done", (o[1], st.loaded[-1] if st.loaded else None, st.tok), "none", st.polls)
         if o[0] == "raised":
             return ("raised", type(o[1]).__name__, "none", st.polls)
         return ("dead", None, "none", st.polls)
@@ -453,11 +530,69 @@ class Scenario:
 # --------------------------------------------------------------------------------------- patches
 
 
+class _MarkerFile:
+    """The file object `open(ready_name, "x")` returned: the first `write` is the gate `markwrite`
+    (the following `close` belongs to the same step).  Also usable as a context manager, should
+    jit.py be rewritten to `with open(ready_name, "x") as fd: fd.write(s)`."""
+
+    def __init__(self, patches, f):
+        self._p, self._f = patches, f
+        self._gated = False
+        self._fail_close = False
+
+    def __getattr__(self, n):
+        return getattr(self._f, n)
+
+    def _quiet_close(self):
+        try:
+            self._f.close()
+        except Exception:  # noqa: BLE001
+            pass
+
+    def write(self, data):
+        sc = self._p._sc()
+        if sc is None or self._gated:
+            return self._f.write(data)
+        self._gated = True
+
+        def on_fail():
+            if self._p.markwrite_fail_at == "close":
+                self._fail_close = True
+                return self._f.write(data)
+            self._quiet_close()  # (the real code would leak the descriptor until collection)
+            raise InjectedMarkerWriteError(28, "No space left on device (injected at fd.write of the ready marker)")
+
+        try:
+            return sc.gate("markwrite", lambda: self._f.write(data), lambda v, e: "ok" if e is None else "error:" + type(e).__name__,
+                           on_fail=on_fail)
+        except Killed:
+            self._quiet_close()
+            raise
+
+    def close(self):
+        r = self._f.close()
+        if self._fail_close:
+            self._fail_close = False
+            raise InjectedMarkerWriteError(5, "Input/output error (injected at fd.close of the ready marker)")
+        return r
+
+    def __enter__(self):
+        return self
+
+    def __exit__(self, *exc):
+        self.close()
+        return False
+
+
 class Patches:
     """Installs the gates into jit.py's module globals; restores everything on exit."""
 
+    # module globals of jit.py the gates are installed into
+    REQUIRED = ("os", "time", "importlib", "cffi", "root_logger", "redirect_stdout")
+
     def __init__(self, ref: Reference):
         self.ref = ref
+        self.markwrite_fail_at = "write"  # or "close": which of fd.write / fd.close raises at choice `fail`
         self.current: Scenario | None = None
         self._saved = None
         # number of byte-identical `.so` copies that are really dlopen'ed; beyond it the (already
@@ -481,14 +616,15 @@ class Patches:
         sc = self._sc()
         name = str(file)
         if sc is not None and mode == "x" and (name.endswith(".c") or name.endswith(".c.cached")):
-            op = "lock" if name.endswith(".c") else "mark"
+            op = "lock" if name.endswith(".c") else "markcreate"
 
             def cls(v, e):
                 if e is None:
                     return "ok"
                 return "exists" if isinstance(e, FileExistsError) else "error:" + type(e).__name__
 
-            return sc.gate(op, lambda: open(file, mode, *a, **k), cls)
+            f = sc.gate(op, lambda: open(file, mode, *a, **k), cls)
+            return _MarkerFile(self, f) if op == "markcreate" else f
         return open(file, mode, *a, **k)
 
     def _exists(self, p):
@@ -545,6 +681,8 @@ class Patches:
             except FileNotFoundError:
                 pass
             st.loaded.append(state)
+            st.tok = sc.so_gen
+            st.loaded_from.append((Path(spec.origin).name, sc.so_gen))
             if state != "complete":
                 raise ImportError(f"{spec.origin}: extension module is {state} (import simulated by harness/sched.py)")
             if self.real_loads >= self.real_load_budget:
@@ -555,6 +693,15 @@ class Patches:
         return sc.gate("load", act, lambda v, e: st.loaded[-1])
 
     def install(self):
+        missing = [n for n in self.REQUIRED if not hasattr(jit, n)]
+        if not hasattr(ffcx.compiler, "compile_ufl_objects"):
+            missing.append("ffcx.compiler.compile_ufl_objects")
+        for n in {"forms": "compile_forms", "expressions": "compile_expressions"}.values():
+            if not hasattr(jit, n):
+                missing.append(n)
+        if missing:
+            raise CannotGate("ffcx/codegeneration/jit.py has no module global(s) " + ", ".join(missing)
+                             + " (the gates of harness/sched.py are installed by replacing them)")
         patches = self
         real_root = logging.getLogger()
 
@@ -650,6 +797,7 @@ class Patches:
                     (d / ref.o_name).write_bytes(ref.o_bytes)
 
                 def link1():
+                    sc.so_gen += 1
                     p = d / ref.so_name
                     try:
                         os.unlink(p)
@@ -742,15 +890,16 @@ _EXC_OF = {
 
 def model_status(proc):
     """Model `(pid pc nextop polls h s)` -> (kind, detail, nextop, polls) like Scenario.status."""
-    _pid, pc, nextop, polls, _h, _s = proc
+    _pid, pc, nextop, polls, _h, _s, tok = proc
     polls = int(polls)
     if pc == "dead":
         return ("dead", None, "none", polls)
     if isinstance(pc, list) and pc[0] == "done":
-        return ("done", (pc[1] == "true", pc[2]), "none", polls)
+        return ("done", (pc[1] == "true", pc[2], int(tok)), "none", polls)
     if isinstance(pc, list) and pc[0] == "raised":
         if pc[1] == "build":
-            exc = "InjectedCodegenError" if pc[2] == "gen" else ("InjectedCompileError" if pc[2] == "compile" else "FileExistsError")
+            exc = {"gen": "InjectedCodegenError", "compile": "InjectedCompileError", "marker": "FileExistsError",
+                   "markopen": "InjectedMarkerOpenError", "markwrite": "InjectedMarkerWriteError"}[pc[2]]
         else:
             exc = _EXC_OF[("raised", pc[1])]
         return ("raised", exc, "none", polls)
@@ -786,6 +935,8 @@ def compare(sc: Scenario, reply, schedule):
     want = {"lock": mfs[0], "so": mfs[1], "obj": mfs[2] == "true", "marker": mfs[3] == "true", "failed": mfs[4] == "true"}
     if fs != want:
         diffs.append(("fs", {"impl": fs, "model": want}))
+    if sc.so_gen != int(mfs[5]):
+        diffs.append(("so-generation", {"impl": sc.so_gen, "model": int(mfs[5])}))
     if extra:
         diffs.append(("unexpected-files", extra))
     for proc in mprocs:
@@ -811,7 +962,8 @@ def _worker_main(argv):
     import json
 
     cache_dir, timeout, barrier, wid, n = argv[0], int(argv[1]), Path(argv[2]), argv[3], int(argv[4])
-    form = tiny_form()
+    entry, factory, check = API[argv[5] if len(argv) > 5 else "forms"]
+    form = factory()
     (barrier / f"ready{wid}").write_text("x")
     t0 = _time.time()
     while len([x for x in os.listdir(barrier) if x.startswith("ready")]) < n:
@@ -820,8 +972,8 @@ def _worker_main(argv):
         _time.sleep(0.005)
     out = {"id": wid}
     try:
-        objs, mod, code = jit.compile_forms([form], cache_dir=cache_dir, timeout=timeout)
-        ok, val = kernel_ok(objs[0], mod)
+        objs, mod, code = getattr(jit, entry)([form], cache_dir=cache_dir, timeout=timeout)
+        ok, val = check(objs[0], mod)
         out.update(built=code[0] is not None, kernel_ok=ok, value=val)
     except BaseException as e:  # noqa: BLE001
         out.update(exc=type(e).__name__, msg=str(e)[:200])
@@ -830,8 +982,8 @@ def _worker_main(argv):
     print("RESULT " + json.dumps(out))
 
 
-def real_processes(cache_dir: Path, barrier: Path, n=3, timeout=60):
-    """n real processes request the tiny form on one cache directory simultaneously."""
+def real_processes(cache_dir: Path, barrier: Path, n=3, timeout=60, api="forms"):
+    """n real processes request the tiny form (expression) on one cache directory simultaneously."""
     import json
     import subprocess
 
@@ -840,7 +992,7 @@ def real_processes(cache_dir: Path, barrier: Path, n=3, timeout=60):
     env["PYTHONPATH"] = str(Path(__file__).resolve().parent.parent) + os.pathsep + env.get("PYTHONPATH", "")
     ps = [
         subprocess.Popen(
-            [sys.executable, "-m", "harness.sched", "worker", str(cache_dir), str(timeout), str(barrier), str(i), str(n)],
+            [sys.executable, "-m", "harness.sched", "worker", str(cache_dir), str(timeout), str(barrier), str(i), str(n), api],
             stdout=subprocess.PIPE, stderr=subprocess.PIPE, text=True, env=env,
         )
         for i in range(n)
